@@ -50,7 +50,7 @@ def check(rep, tier):
         shapes = [(x, y, z) for x in range(2, 6) for y in range(2, 6) for z in (1, 2, 3)]
     else:
         shapes = [(x, y, z) for x in range(2, 8) for y in range(2, 8) for z in (1, 2, 3, 4)]
-        shapes += [(rng.randint(2, 14), rng.randint(2, 14), rng.randint(1, 4)) for _ in range(40)]
+        shapes += [(rng.randint(2, 11), rng.randint(2, 11), rng.randint(1, 3)) for _ in range(15)]
     op = oc.OperatingConditions(t_tot=20, cooling={"rate": 0.5, "start": 20, "end": 10})
     cases = []
     for arr in ("square", "hexagonal"):
